@@ -12,6 +12,7 @@ import (
 	"fmt"
 	"io"
 	"net"
+	"runtime"
 	"strings"
 	"sync"
 	"time"
@@ -112,7 +113,14 @@ type ChunkConn struct {
 	rrng    *vh.Rng
 	rstyle  int
 	read    int
+	// slow > 0: every Write call sleeps a seeded 0..slow and yields between its
+	// pieces, so that other goroutines queue up on whatever lock the caller holds
+	// (steers schedules only; no verdict depends on the timing)
+	slow time.Duration
 }
+
+// SetSlow makes every Write take a seeded 0..max and yield between partial writes.
+func (c *ChunkConn) SetSlow(max time.Duration) { c.slow = max }
 
 func NewChunkConn(c net.Conn, r *vh.Rng, wstyle, rstyle int) *ChunkConn {
 	return &ChunkConn{Conn: c, wrng: r.Fork(), rrng: r.Fork(), wstyle: wstyle, rstyle: rstyle}
@@ -140,7 +148,19 @@ func (c *ChunkConn) pieces(b []byte) [][]byte {
 
 func (c *ChunkConn) Write(b []byte) (int, error) {
 	total := 0
-	for _, p := range c.pieces(b) {
+	var nap time.Duration
+	if c.slow > 0 {
+		c.wmu.Lock()
+		nap = time.Duration(c.wrng.Intn(int(c.slow/time.Microsecond)+1)) * time.Microsecond
+		c.wmu.Unlock()
+	}
+	for i, p := range c.pieces(b) {
+		if c.slow > 0 {
+			if i == 0 {
+				time.Sleep(nap)
+			}
+			runtime.Gosched()
+		}
 		c.wmu.Lock()
 		n, err := c.Conn.Write(p)
 		c.written = append(c.written, append([]byte(nil), p[:n]...))
